@@ -44,6 +44,8 @@ def atoms(M):
         "if": [["IF", ["s", "<state>y > 1"], [A(p, p + " + 1")], [A(p, p + " - 1")]]],
         "if-nested": [["IF", ["s", "<state>y > 1"], [["IF", ["s", p + " > 0"], [A(p, p + " * 2")], None]], None]],
         "loop": [A(p + "r[i]", "i + <t> + " + p, [("i", "0", "3")])],
+        # a statement repeated n times: the counter occurs in the loop header only
+        "repeat": [A(p, p + " + 2", [("i", "0", "2")])],
         "tmp-loop": [A("w", "<builtin>array(3)"), A("w[i]", "i * 2", [("i", "0", "3")]), A(p, p + " + w[2]")],
         "loop-n": [A("n", "2"), A(p + "r[i]", "7", [("i", "0", "n")])],
         "yield": [["Y", p, M, "<t>", "tid"]],
